@@ -201,3 +201,41 @@ check('C17',
       TRUSTED + 'Heights are snapped to the exact grid 1/21600 (scenarios keep unions <= 6 k-mers), anything further than 1e-6 from it is rejected.',
       'TLA+ spec (UpgmaDef, Upgma, World, Labels) model-checked with TLC; TLC replays merges parsed from the real Newick output',
       'DESIGN.md 5 (C17)')
+
+check('C11',
+      'TLC checks the RFC 4180 reader/writer round trip over a bounded table scope; conformance: real query results on synthetic '
+      'databases whose taxon names, genome descriptions and labels contain commas, quotes, LF, CRLF, tabs and non-ASCII text, covering '
+      'no prediction, unreportable predicted taxon, distance exactly 0, failed strict results with warnings, inputs without source file '
+      'and integer ids, are exported by the three exporters (plain and pretty) and by `gambit query -f csv|json|archive`; TLC parses the '
+      'raw CSV text itself (and requires Python\'s csv reader to agree), checks the documented header and every column against the result '
+      'items (numeric cells as bit patterns); the JSON must parse strictly and carry the same label / taxa / closest-genome data; the '
+      'archive is read back against the same session and must be == and identical field by field (distances bit for bit, warnings, '
+      'error, parameters, timestamp, extra).',
+      TRUSTED + 'JSON syntax validity is decided by Python\'s json; lone CRs in names are excluded.',
+      'TLA+ spec (Csv) checked with TLC; TLC parses and judges the real exporters\' output against projections of the result objects',
+      'DESIGN.md 5 (C11)')
+
+check('C08',
+      'The system specification World (contigs -> signature -> float32 distance -> classification, all recomputed by TLC from the '
+      'nucleotide sequences) defines the row of a genome without mentioning the batch; its parts are model-checked (executor order, '
+      'matrix loop, lineage walks). Conformance: a synthetic database (signature order != genome order, identical references, '
+      'threshold-less and unreportable taxa, awkward names) is queried through the real command line with every single genome, ordered '
+      'pairs/triples, full and repeated batches and different genomes with colliding labels x channel {positional, list file + base '
+      'directory, pre-computed signature file} x gzip / FASTA extensions x -c {1,2,5,16} x progress on/off x {csv, json, archive}, and '
+      'through query_parse with several chunk sizes and pool kinds; TLC judges row count, order, labels (Label operator) and the full '
+      'content of every row, including the closest-genomes list.',
+      TRUSTED + 'Thresholds are float32-exact; CLI runs are subprocesses.',
+      'TLA+ system spec (World, Labels + component models) with TLC; TLC judges every output row of real CLI / library batches',
+      'DESIGN.md 5 (C08)')
+
+check('C18',
+      'TLC model check of all histories (depth 6/9) of read-side commands and library calls (load, edit, add, delete, flush, commit, '
+      'begin-block, rollback, query, close, read signatures; CLI query / dist --use-db / signatures info / create --db-params / tree, '
+      'failing commands): the database files and the directory listing never change and nothing is ever emitted to the connection; '
+      'negative controls: ordinary session, a flush guard that forgets deletions, signature file opened r+. Conformance (generator + '
+      'judge): histories generated by TLC (random walks + library-heavy ones) are replayed on private copies of the synthetic and of '
+      'the bundled test database; after EVERY step sha256/size of every file and the listing are taken; TLC judges every step against '
+      'the read-only session\'s step relation (files unchanged, commit refused, failing commands fail, pending changes never flushed).',
+      TRUSTED + 'Content identity = sha256 + size of every regular file in the directory.',
+      'TLA+ spec (DbSessionDef, DbWorld) model-checked with TLC incl. negative controls; TLC-generated histories replayed and judged step by step',
+      'DESIGN.md 5 (C18)')
